@@ -256,6 +256,25 @@ static void limit_space (long start, long *pidx)
     { char k_[260]; snprintf (k_, sizeof k_, "C14|crash|%s", sig); v_case (idx, k_, sig); }
     one_case (text, sig, 0, 1);
   }
+  /* the same overruns with the optional trailing tokens of a declaration (type name, alignment), which the parser
+   * stores into the variable it has just declared */
+  {
+    static const char *tclasses[] = { ".source 1 s%d guint8", ".source 1 s%d align 16", ".dest 1 d%d guint8", ".dest 1 d%d align 16 guint8", ".accumulator 2 a%d gint16", ".temp 1 t%d x", ".param 1 p%d gint8", ".const 1 c%d 7 extra" };
+    static const int tlimits[] = { 8, 8, 4, 4, 4, 16, 8, 8 };
+    for (c = 0; c < 8; c++) for (k = tlimits[c] - 2; k <= tlimits[c] + 2; k++) {
+      long idx = (*pidx)++;
+      size_t o = 0;
+      char sig[64];
+      int j;
+      if (idx < start || (idx % cfg.nshards) != cfg.shard) continue;
+      o += sprintf (text + o, ".function vars\n.source 1 sx\n.dest 1 dx\n");
+      for (j = 0; j < k; j++) { o += sprintf (text + o, tclasses[c], j + 1); o += sprintf (text + o, "\n"); }
+      o += sprintf (text + o, "copyb dx, sx\n");
+      snprintf (sig, sizeof (sig), "vars+tokens=%d*%d", c, k);
+      { char k_[260]; snprintf (k_, sizeof k_, "C14|crash|%s", sig); v_case (idx, k_, sig); }
+      one_case (text, sig, 0, 1);
+    }
+  }
   /* distinct literal constants in instructions */
   for (hs = 0; hs < 2; hs++) for (k = 7; k <= 12; k++) {
     long idx = (*pidx)++;
